@@ -232,6 +232,98 @@ def _inline_prefix_temps(fn: ast.FunctionDef):
                 blk[blk.index(st)] = ast.copy_location(ast.Pass(), st)
 
 
+def _bool_pure(e: ast.AST) -> bool:
+    if isinstance(e, ast.UnaryOp) and isinstance(e.op, ast.Not):
+        return _bool_pure(e.operand)
+    if isinstance(e, ast.BoolOp):
+        return all(_bool_pure(v) for v in e.values)
+    if isinstance(e, ast.Compare):
+        return all(_pure_chain(x) or isinstance(x, (ast.Name, ast.Constant)) for x in [e.left] + list(e.comparators))
+    return _pure_chain(e)
+
+
+def _inline_flag_temps(fn: ast.FunctionDef):
+    """`is_answer = not msg.header.is_request` ... `if is_answer:`  ->  `if not msg.header.is_request:`.
+    A local bound once, at the top level of the function, to a boolean expression over attribute
+    chains (not / and / or / comparisons; at least one `not` or comparison, so that plain aliases
+    keep their names) that is read only inside tests, while the function neither re-binds the
+    roots nor stores to the attributes, is a cached condition; the tests are spelled out again."""
+    stores, loads = _name_counts(fn)
+    stored_attrs = {ast.unparse(n) for n in ast.walk(fn) if isinstance(n, ast.Attribute)
+                    and isinstance(n.ctx, (ast.Store, ast.Del))}
+    par = {}
+    for n in ast.walk(fn):
+        for c in ast.iter_child_nodes(n):
+            par[c] = n
+    for st in list(fn.body):
+        if not (isinstance(st, ast.Assign) and len(st.targets) == 1 and isinstance(st.targets[0], ast.Name)):
+            continue
+        v = st.value
+        # (only the negation of an attribute read - `not msg.header.is_request` -: compound
+        # conditions keep their names, which the outcome rules of the handlers refer to)
+        if not (isinstance(v, ast.UnaryOp) and isinstance(v.op, ast.Not) and _pure_chain(v.operand)):
+            continue
+        t = st.targets[0].id
+        if stores.get(t) != 1:
+            continue
+        chains = [ast.unparse(x) for x in ast.walk(v) if isinstance(x, ast.Attribute)]
+        roots = {x.id for x in ast.walk(v) if isinstance(x, ast.Name)}
+        if any(stores.get(r, 0) > 1 for r in roots) or any(
+                s_ == c_ or c_.startswith(s_ + ".") for s_ in stored_attrs for c_ in chains):
+            continue
+        uses = [n for n in ast.walk(fn) if isinstance(n, ast.Name) and n.id == t and isinstance(n.ctx, ast.Load)]
+
+        def in_test(u):
+            cur = u
+            while cur in par:
+                p_ = par[cur]
+                if isinstance(p_, (ast.If, ast.While, ast.IfExp)) and cur is p_.test:
+                    return True
+                if isinstance(p_, (ast.BoolOp, ast.UnaryOp)):
+                    cur = p_
+                    continue
+                return False
+            return False
+        if not uses or not all(in_test(u) for u in uses):
+            continue
+        for u in uses:
+            p_ = par[u]
+            new = ast.copy_location(copy.deepcopy(v), u)
+            for fld, val in ast.iter_fields(p_):
+                if val is u:
+                    setattr(p_, fld, new)
+                elif isinstance(val, list) and u in val:
+                    val[val.index(u)] = new
+        fn.body[fn.body.index(st)] = ast.copy_location(ast.Pass(), st)
+
+
+class _GetDefaultMembership(ast.NodeTransformer):
+    """`x in D.get(k, ())`  ->  `k in D and x in D[k]`  (and `not in` accordingly): membership in
+    the value of a key that may be absent, spelled through an empty default."""
+    def visit_Compare(self, node):
+        self.generic_visit(node)
+        if len(node.ops) == 1 and isinstance(node.ops[0], (ast.In, ast.NotIn)):
+            c = node.comparators[0]
+            if isinstance(c, ast.Call) and isinstance(c.func, ast.Attribute) and c.func.attr == "get" \
+                    and len(c.args) == 2 and not c.keywords and _pure_chain(c.func.value) \
+                    and (_pure_chain(c.args[0]) or isinstance(c.args[0], ast.Name)):
+                d = c.args[1]
+                empty = (isinstance(d, (ast.Tuple, ast.List, ast.Set)) and not d.elts) \
+                    or (isinstance(d, ast.Dict) and not d.keys) \
+                    or (isinstance(d, ast.Call) and isinstance(d.func, ast.Name)
+                        and d.func.id in ("tuple", "list", "set", "frozenset", "dict") and not d.args)
+                if empty:
+                    has = ast.Compare(left=copy.deepcopy(c.args[0]), ops=[ast.In()], comparators=[copy.deepcopy(c.func.value)])
+                    sub = ast.Subscript(value=copy.deepcopy(c.func.value), slice=copy.deepcopy(c.args[0]), ctx=ast.Load())
+                    inner = ast.Compare(left=node.left, ops=[ast.In()], comparators=[sub])
+                    both = ast.BoolOp(op=ast.And(), values=[has, inner])
+                    out = both if isinstance(node.ops[0], ast.In) else ast.UnaryOp(op=ast.Not(), operand=both)
+                    for y in ast.walk(out):
+                        ast.copy_location(y, node)
+                    return out
+        return node
+
+
 CODEC_FUNCS = ("as_packed", "as_bytes")
 
 
@@ -284,6 +376,8 @@ def normalize_tree(tree: ast.Module):
             _with_for_acquire(f_)
             _inline_prefix_temps(f_)
             _propagate_self_reads(f_)
+            _inline_flag_temps(f_)
+        _GetDefaultMembership().visit(fn)
         ast.fix_missing_locations(fn)
 
 
